@@ -1303,3 +1303,224 @@ def conservation2d_clause(vals, num, bx, by):
                     show(num=num, nx=nx, ny=ny, flux=flux, momentum_integral=Im.tolist())
                     ok = False
     return ok
+
+
+# ---- C15: 2-D symmetries and agreement with 1-D -------------------------------------------------------------------------
+
+def _tr_state(W, transform):
+    """image of a 2-D primitive / conservative data list [s, V(2,n), s] (cell order unchanged)"""
+    r, V, p = W
+    V = np.array(V, dtype=float)
+    if transform == "transpose":
+        V = V[::-1].copy()
+    elif transform == "reflect-x":
+        V[0] = -V[0]
+    elif transform == "reflect-y":
+        V[1] = -V[1]
+    return [np.array(r, dtype=float), V, np.array(p, dtype=float)]
+
+
+def _rand_states2d(rng, n):
+    rho = 10 ** rng.uniform(-1, 1, n)
+    p = 10 ** rng.uniform(-1, 1, n)
+    c = np.sqrt(1.4 * p / rho)
+    V = rng.uniform(-2.5, 2.5, (2, n)) * c
+    return [rho, V, p]
+
+
+def flux2d_symmetry_clause(vals, flux, clause, comp=None):
+    import flowdyn.modelphy.euler as eu
+    rng = np.random.default_rng(7)
+    n = 400
+    ok = True
+    for gam in (1.4, 5 / 3):
+        m2 = eu.euler2d(gamma=gam)
+        WL, WR = _rand_states2d(rng, n), _rand_states2d(rng, n)
+        ex, ey = np.array([[1.0] * n, [0.0] * n]), np.array([[0.0] * n, [1.0] * n])
+        if clause.startswith("one-dimensional"):
+            d = clause.split("/")[1]
+            m1 = eu.euler1d(gamma=gam)
+            u = 0 if d == "x" else 1
+            for W in (WL, WR):
+                W[1][1 - u] = 0.0
+            F2 = m2.numflux(flux, WL, WR, ex if d == "x" else ey)
+            F1 = m1.numflux(flux, [WL[0], WL[1][u], WL[2]], [WR[0], WR[1][u], WR[2]])
+            want = [F1[0], None, F1[2]]
+            got2 = [F2[0], F2[1][u], F2[1][1 - u], F2[2]]
+            errs = [np.max(np.abs(got2[0] - F1[0])), np.max(np.abs(got2[1] - F1[1])), np.max(np.abs(got2[2])),
+                    np.max(np.abs(got2[3] - F1[2]))]
+            scale = max(1.0, float(np.max(np.abs(F1[2]))))
+            if max(errs) > 1e-10 * scale:
+                show(flux=flux, clause=clause, gamma=gam, errors=[float(e) for e in errs])
+                ok = False
+            continue
+        tr, kind = (clause.split("/") + [""])[:2]
+        if tr in ("transpose", "transpose-back"):
+            n1, n2 = (ex, ey) if tr == "transpose" else (ey, ex)
+            F1 = m2.numflux(flux, WL, WR, n1)
+            F2 = m2.numflux(flux, _tr_state(WL, "transpose"), _tr_state(WR, "transpose"), n2)
+            want = _tr_state(F1, "transpose")
+        else:
+            d = 0 if tr == "reflect-x" else 1
+            nrm = (ex, ey)[d] if kind == "normal" else (ey, ex)[d]
+            F1 = m2.numflux(flux, WL, WR, nrm)
+            if kind == "normal":
+                F2 = m2.numflux(flux, _tr_state(WR, tr), _tr_state(WL, tr), nrm)
+                w = _tr_state(F1, tr)
+                want = [-w[0], -w[1], -w[2]]
+            else:
+                F2 = m2.numflux(flux, _tr_state(WL, tr), _tr_state(WR, tr), nrm)
+                want = _tr_state(F1, tr)
+        err = max(float(np.max(np.abs(F2[0] - want[0]))), float(np.max(np.abs(F2[1] - want[1]))), float(np.max(np.abs(F2[2] - want[2]))))
+        scale = max(1.0, float(np.max(np.abs(F1[2]))))
+        if not err <= 1e-10 * scale:
+            k = int(np.argmax(np.abs(F2[2] - want[2]) + np.abs(F2[0] - want[0]) + np.sum(np.abs(F2[1] - want[1]), axis=0)))
+            show(flux=flux, clause=clause, gamma=gam, error=err, WL=[float(WL[0][k]), WL[1][:, k].tolist(), float(WL[2][k])],
+                 WR=[float(WR[0][k]), WR[1][:, k].tolist(), float(WR[2][k])])
+            ok = False
+    return ok
+
+
+_SIDES2D = {"left": (-1.0, 0.0), "right": (1.0, 0.0), "bottom": (0.0, -1.0), "top": (0.0, 1.0)}
+
+
+def bc2d_symmetry_clause(vals, bc, transform, side):
+    import flowdyn.modelphy.euler as eu
+    rng = np.random.default_rng(11)
+    n = 200
+    ok = True
+    for gam in (1.4, 5 / 3):
+        m2 = eu.euler2d(gamma=gam)
+        W = _rand_states2d(rng, n)
+        prm = {"type": bc, "ptot": 30.0, "rttot": 3.0, "p": 0.7}
+        d = _SIDES2D[side]
+        dirv = np.array([[d[0]] * n, [d[1]] * n])
+        if transform == "one-dimensional":
+            m1 = eu.euler1d(gamma=gam)
+            alongx = side in ("left", "right")
+            u = 0 if alongx else 1
+            W[1][1 - u] = 0.0
+            o2 = m2.namedBC(bc, dirv, W, prm)
+            o1 = m1.namedBC(bc, d[u], [W[0], W[1][u], W[2]], prm)
+            o2 = [np.broadcast_to(o2[0], (n,)), np.broadcast_to(np.asarray(o2[1]), (2, n)), np.broadcast_to(o2[2], (n,))]
+            errs = [np.max(np.abs(o2[0] - o1[0])), np.max(np.abs(o2[1][u] - o1[1])), np.max(np.abs(o2[1][1 - u])), np.max(np.abs(o2[2] - o1[2]))]
+            if not max(errs) <= 1e-10:
+                show(bc=bc, transform=transform, side=side, gamma=gam, errors=[float(e) for e in errs])
+                ok = False
+            continue
+        dmap = {"transpose": lambda v: (v[1], v[0]), "reflect-x": lambda v: (-v[0], v[1]), "reflect-y": lambda v: (v[0], -v[1])}[transform]
+        d2 = dmap(d)
+        o1 = m2.namedBC(bc, dirv, W, prm)
+        o2 = m2.namedBC(bc, np.array([[d2[0]] * n, [d2[1]] * n]), _tr_state(W, transform), prm)
+        o1 = [np.broadcast_to(o1[0], (n,)), np.broadcast_to(np.asarray(o1[1]), (2, n)), np.broadcast_to(o1[2], (n,))]
+        o2 = [np.broadcast_to(o2[0], (n,)), np.broadcast_to(np.asarray(o2[1]), (2, n)), np.broadcast_to(o2[2], (n,))]
+        want = _tr_state(o1, transform)
+        err = max(float(np.max(np.abs(o2[0] - want[0]))), float(np.max(np.abs(o2[1] - want[1]))), float(np.max(np.abs(o2[2] - want[2]))))
+        if not err <= 1e-10:
+            show(bc=bc, transform=transform, side=side, gamma=gam, error=err)
+            ok = False
+    return ok
+
+
+def _bcdict2d(tag):
+    return {"type": tag, "ptot": 1.6, "rttot": 1.1, "p": 0.9}
+
+
+def sym2d_clause(vals, num, transform, bc):
+    """rhs of the image problem (transposed / reflected grid and data, boundary tags moved accordingly) against the image of the rhs"""
+    import flowdyn.mesh2d as mesh2d, flowdyn.modeldisc as md, flowdyn.modelphy.euler as eu, flowdyn.xnum as xnum, flowdyn.field as field
+    bl, br, bb, bt = bc
+    ok = True
+    for nx, ny, lx, ly in ((1, 1, 1.0, 2.0), (2, 3, 1.3, 0.7), (3, 2, 0.9, 1.7), (5, 4, 2.0, 1.0), (4, 6, 1.0, 1.0)):
+        for flux in ("centered", "hlle"):
+            for kap in ((None,) if num == "extrapol2d1" else (1. / 3., -1.0, 0.4)):
+                model = eu.euler2d()
+                mk = (lambda: xnum.extrapol2d1()) if num == "extrapol2d1" else (lambda: xnum.extrapol2dk(kap))
+                rng = np.random.default_rng(100 * nx + ny)
+                n = nx * ny
+                rho, p = 1 + 0.3 * rng.uniform(-1, 1, n), 1 + 0.3 * rng.uniform(-1, 1, n)
+                V = 0.4 * rng.uniform(-1, 1, (2, n))
+                bc1 = {"left": _bcdict2d(bl), "right": _bcdict2d(br), "bottom": _bcdict2d(bb), "top": _bcdict2d(bt)}
+                m1 = mesh2d.mesh2d(nx, ny, lx, ly)
+                try:
+                    d1 = md.fvm2dcart(model, m1, mk(), bc1, numflux=flux)
+                    r1 = d1.rhs(field.fdata(model, m1, model.prim2cons([rho, V, p])))
+                except Exception as e:      # the real operator raises on a valid problem: a failing input
+                    show(num=num, transform=transform, bc=bc, nx=nx, ny=ny, flux=flux, kappa=kap, exception=repr(e))
+                    ok = False
+                    continue
+                grid = lambda a: np.asarray(a).reshape(ny, nx)
+                if transform == "transpose":
+                    m2 = mesh2d.mesh2d(ny, nx, ly, lx)
+                    bc2 = {"left": bc1["bottom"], "right": bc1["top"], "bottom": bc1["left"], "top": bc1["right"]}
+                    perm = lambda a: grid(a).T.reshape(-1)
+                elif transform == "reflect-x":
+                    m2 = mesh2d.mesh2d(nx, ny, lx, ly)
+                    bc2 = {"left": bc1["right"], "right": bc1["left"], "bottom": bc1["bottom"], "top": bc1["top"]}
+                    perm = lambda a: grid(a)[:, ::-1].reshape(-1)
+                else:
+                    m2 = mesh2d.mesh2d(nx, ny, lx, ly)
+                    bc2 = {"left": bc1["left"], "right": bc1["right"], "bottom": bc1["top"], "top": bc1["bottom"]}
+                    perm = lambda a: grid(a)[::-1, :].reshape(-1)
+                img = lambda W: _tr_state([perm(W[0]), np.array([perm(W[1][0]), perm(W[1][1])]), perm(W[2])], transform)
+                P2 = img([rho, V, p])
+                try:
+                    d2 = md.fvm2dcart(model, m2, mk(), bc2, numflux=flux)
+                    r2 = d2.rhs(field.fdata(model, m2, model.prim2cons(P2)))
+                except Exception as e:
+                    show(num=num, transform=transform, bc=bc, nx=nx, ny=ny, flux=flux, kappa=kap, exception_on_image=repr(e))
+                    ok = False
+                    continue
+                want = img(r1)
+                err = max(float(np.max(np.abs(r2[0] - want[0]))), float(np.max(np.abs(r2[1] - want[1]))), float(np.max(np.abs(r2[2] - want[2]))))
+                scale = max(1.0, float(np.max(np.abs(r1[2]))))
+                if not err <= 1e-9 * scale:
+                    show(num=num, transform=transform, bc=bc, nx=nx, ny=ny, lx=lx, ly=ly, flux=flux, kappa=kap, error=err)
+                    ok = False
+    return ok
+
+
+def agree1d_clause(vals, num, direction, bc, transverse):
+    """2-D operator on data constant along the other direction (zero transverse velocity) against the 1-D operator, row by row"""
+    import flowdyn.mesh2d as mesh2d, flowdyn.mesh as mesh1, flowdyn.modeldisc as md, flowdyn.modelphy.euler as eu
+    import flowdyn.xnum as xnum, flowdyn.field as field
+    b0, b1 = bc
+    ok = True
+    for nl, nt, ll, lt in ((1, 1, 1.0, 2.0), (2, 3, 1.3, 0.7), (5, 2, 0.9, 1.7), (7, 4, 2.0, 1.0)):
+        for flux in ("centered", "hlle"):
+            for kap in ((None,) if num == "extrapol2d1" else (1. / 3., -1.0, 0.4)):
+                model2, model1 = eu.euler2d(), eu.euler1d()
+                rng = np.random.default_rng(10 * nl + nt)
+                rho1, p1, u1 = 1 + 0.3 * rng.uniform(-1, 1, nl), 1 + 0.3 * rng.uniform(-1, 1, nl), 0.4 * rng.uniform(-1, 1, nl)
+                msh1 = mesh1.unimesh(ncell=nl, length=ll)
+                n1 = xnum.extrapol1() if num == "extrapol2d1" else xnum.extrapolk(kap)
+                d1 = md.fvm1d(model1, msh1, n1, numflux=flux, bcL=_bcdict2d(b0), bcR=_bcdict2d(b1))
+                r1 = d1.rhs(field.fdata(model1, msh1, model1.prim2cons([rho1, u1, p1])))
+                n2 = xnum.extrapol2d1() if num == "extrapol2d1" else xnum.extrapol2dk(kap)
+                if direction == "x":
+                    m2 = mesh2d.mesh2d(nl, nt, ll, lt)
+                    bcs = {"left": _bcdict2d(b0), "right": _bcdict2d(b1), "bottom": _bcdict2d(transverse), "top": _bcdict2d(transverse)}
+                    ext = lambda a: np.tile(a, nt)
+                    V = np.array([ext(u1), 0 * ext(u1)])
+                    rows = lambda a: np.asarray(a).reshape(nt, nl)
+                else:
+                    m2 = mesh2d.mesh2d(nt, nl, lt, ll)
+                    bcs = {"bottom": _bcdict2d(b0), "top": _bcdict2d(b1), "left": _bcdict2d(transverse), "right": _bcdict2d(transverse)}
+                    ext = lambda a: np.repeat(a, nt)
+                    V = np.array([0 * ext(u1), ext(u1)])
+                    rows = lambda a: np.asarray(a).reshape(nl, nt).T
+                try:
+                    d2 = md.fvm2dcart(model2, m2, n2, bcs, numflux=flux)
+                    r2 = d2.rhs(field.fdata(model2, m2, model2.prim2cons([ext(rho1), V, ext(p1)])))
+                except Exception as e:
+                    show(num=num, direction=direction, bc=bc, transverse=transverse, n_long=nl, n_trans=nt, flux=flux, kappa=kap, exception=repr(e))
+                    ok = False
+                    continue
+                kn, kt = (0, 1) if direction == "x" else (1, 0)
+                errs = [float(np.max(np.abs(rows(r2[0]) - r1[0]))), float(np.max(np.abs(rows(r2[1][kn]) - r1[1]))),
+                        float(np.max(np.abs(r2[1][kt]))), float(np.max(np.abs(rows(r2[2]) - r1[2])))]
+                scale = max(1.0, float(np.max(np.abs(r1[2]))))
+                if not max(errs) <= 1e-9 * scale:
+                    show(num=num, direction=direction, bc=bc, transverse=transverse, n_long=nl, n_trans=nt, flux=flux, kappa=kap, errors=errs)
+                    ok = False
+    return ok
